@@ -1571,6 +1571,53 @@ theorem distance_symmetric_cell (g : Grid K) (h : ∀ a ∈ g.axes, a.lo < a.hi)
     g.distSqCell c1 c2 = g.distSqCell c2 c1 :=
   (distance_symmetric g h (g.cellToGrid c1) (g.cellToGrid c2)).2
 
+/-! #### period images (mirror points) -/
+
+theorem normSq_wrapComponents_zero (ps : List Bool) (bs : List (K × K)) (ds : List K)
+    (hb : ∀ b ∈ bs, b.1 < b.2) (hd : ∀ d ∈ ds, d = 0) : normSq (wrapComponents ps bs ds) = 0 := by
+  have hz : ∀ ds : List K, (∀ d ∈ ds, d = 0) → normSq ds = 0 := by
+    intro ds hd
+    induction ds with
+    | nil => simp [normSq]
+    | cons d ds ih =>
+      simp only [normSq, hd d List.mem_cons_self, ih (fun e he => hd e (List.mem_cons_of_mem _ he))]
+      ring
+  induction ps generalizing bs ds with
+  | nil => simp only [wrapComponents]; exact hz ds hd
+  | cons per ps ih =>
+    cases bs with
+    | nil => simp only [wrapComponents]; exact hz ds hd
+    | cons b bs =>
+      cases ds with
+      | nil => simp [wrapComponents, normSq]
+      | cons d ds =>
+        have hL : 0 < b.2 - b.1 := sub_pos.mpr (hb b List.mem_cons_self)
+        have h0 : d = 0 := hd d List.mem_cons_self
+        have hw : wrap (0 : K) (b.2 - b.1) = 0 := wrap_of_small 0 _ hL (by linarith) (by linarith)
+        simp only [wrapComponents, normSq, h0, hw, ite_self,
+          ih bs ds (fun c hc => hb c (List.mem_cons_of_mem _ hc)) (fun e he => hd e (List.mem_cons_of_mem _ he))]
+        ring
+
+theorem zipWith_sub_self (x : List K) : ∀ d ∈ List.zipWith (fun b a => b - a) x x, d = 0 := by
+  induction x with
+  | nil => simp
+  | cons a as ih =>
+    intro d hd
+    simp only [List.zipWith_cons_cons, List.mem_cons] at hd
+    rcases hd with rfl | hd
+    · exact sub_self a
+    · exact ih d hd
+
+/-- **C12** every period image of a point (any whole multiples of the periods along the periodic
+Cartesian components: the points `iter_mirror_points` has to produce) is at distance 0 from it -/
+theorem period_image_at_distance_zero (g : Grid K) (h : ∀ a ∈ g.axes, a.lo < a.hi) (x : List K)
+    (ks : List ℤ) :
+    g.distSq x x = 0 ∧ g.distSq x (shiftPeriodic g.diffFlags g.diffBounds ks x) = 0 := by
+  have h0 : g.distSq x x = 0 := by
+    unfold Grid.distSq Grid.differenceVector diffVec
+    exact normSq_wrapComponents_zero _ _ _ (g.diffBounds_pos h) (zipWith_sub_self x)
+  exact ⟨h0, by rw [(distance_invariant_under_period_shift g h x x ks).2.1, h0]⟩
+
 /-! ### 6. concrete witnesses: hypotheses are satisfiable, regression of defect F3 -/
 
 /-- an annular cylinder, periodic in `z`: `CylindricalSymGrid((1,3), (0,10), (4,5), periodic_z=True)` -/
